@@ -168,3 +168,92 @@ MUTANTS = [
     dict(name="probe potentials written under the name of the phases", units=["DataHandler.save_time_step[layout]"],
          edits=[(R_, "                running_grp[key] = value\n", "                running_grp[\"theta\" if key == \"mu\" else key] = value\n")]),
 ]
+
+
+# ------------------------------------------------------------------------------------------------------------------ frame round trip
+
+DATA_ = "tdgl.solution.data"
+
+
+def run_frame_round_trip(mutate=None, prefixes=("C14.", "C05.")):
+    """The real writer (DataHandler.save_fixed_values / save_time_step) followed by the real reader of a frame (TDGLData.from_hdf5 with load_state_data)
+    over the abstract store, symbolic arrays: the frame read back for step f holds exactly what was handed to the writer with the f-th call - psi, mu,
+    currents, induced potential, and the applied potential / epsilon whether they are fixed (written once) or written with every frame - and its state is
+    that frame's label.  Whatever frame is asked for, no other frame's data is returned."""
+    def body():
+        c = sym.ctx()
+        c.record_prefixes = tuple(prefixes)
+        fs = fsmodel.FS()
+        L = load_runner(fs, mutate)
+        mut = [(o, n) for (m, o, n) in (mutate or []) if m == DATA_]
+        from pyvc.models.npmodel import NP, BUILTINS
+
+        class NPD(NP):
+            @staticmethod
+            def array(x, dtype=None):
+                return x.value if isinstance(x, fsmodel.Dataset) else NP.array(x, dtype)
+
+            @staticmethod
+            def asarray(x, dtype=None):
+                return x.value if isinstance(x, fsmodel.Dataset) else NP.asarray(x, dtype)
+        rb = {"h5py": fsmodel.H5(fs), "np": NPD}
+        rb.update(BUILTINS)
+        LD = instrument.load(DATA_, rebind=rb, mutate=mut, vc=vcm.VC())
+        lg = logging.getLogger("pyvc-dh")
+        lg.disabled = True
+        dh = L["DataHandler"](output_file="o.h5", logger=lg)
+        dh.__enter__()
+        N, Ne = SI(z3.Int("n_sites")), SI(z3.Int("n_edges"))
+        assume(N >= 1, Ne >= 1)
+        dyn_A = bool(SB(z3.Bool("applied_potential_written_with_every_frame")))
+        dyn_eps = bool(SB(z3.Bool("epsilon_written_with_every_frame")))
+        fixed = {}
+        if not dyn_A:
+            fixed["applied_vector_potential"] = SymArray.input("A_fixed", (Ne, 2))
+        if not dyn_eps:
+            fixed["epsilon"] = SymArray.input("eps_fixed", (N,))
+        dh.save_fixed_values(fixed)
+        frames = []
+        for f in range(3):
+            state = dict(step=SI(z3.Int(f"step{f}")), time=SR(z3.Real(f"time{f}")), dt=SR(z3.Real(f"dt{f}")))
+            data = dict(psi=SymArray.input(f"psi{f}", (N,), "c"), mu=SymArray.input(f"mu{f}", (N,)), supercurrent=SymArray.input(f"js{f}", (Ne,)),
+                        normal_current=SymArray.input(f"jn{f}", (Ne,)), induced_vector_potential=SymArray.input(f"Aind{f}", (Ne, 2)))
+            if dyn_A:
+                data["applied_vector_potential"] = SymArray.input(f"A{f}", (Ne, 2))
+            if dyn_eps:
+                data["epsilon"] = SymArray.input(f"eps{f}", (N,))
+            rs = None if f == 0 else dict(dt=SymArray.input(f"buf_dt{f}", (SI(1), SI(z3.Int("buffer_size")))))
+            dh.save_time_step(state, data, rs)
+            frames.append((state, data))
+        TD = LD["TDGLData"]
+        i, k = SI(FreshInt("i")), SI(FreshInt("k"))
+        assume(i >= 0, k >= 0, k < 2)
+        for f, (state, data) in enumerate(frames):
+            td = TD.from_hdf5(dh.output_file, f)
+            check("C14.frame.step_is_the_frame_asked_for", z3.BoolVal(td.step == f))
+            want = dict(fixed)
+            want.update(data)
+            for key, arr in want.items():
+                got = getattr(td, key, None)
+                ok = isinstance(got, SymArray) and got.ndim == arr.ndim
+                idx = (i, k) if arr.ndim == 2 else (i,)
+                hyp = [i.e < arr.shape[0].e]
+                check(f"C14.frame.data_read_back_is_what_was_written_for_that_frame[{key}]",
+                      z3.BoolVal(False) if not ok else z3.And(*[sym.eq(a, b) for a, b in zip(got.shape, arr.shape)], sym.eq(got.at(*idx), arr.at(*idx))), extra=hyp)
+            st = td.state if isinstance(td.state, dict) else {}
+            for key in ("step", "time", "dt"):
+                check(f"C05.frame.state_read_back_is_the_label_written_for_that_frame[{key}]", z3.BoolVal(False) if key not in st else sym.eq(st[key], state[key]))
+    obls, n = explore(body)
+    return dict(obls=obls, paths=n, sources=[load_runner(fsmodel.FS(), mutate).info()], consistent=sym.consistent())
+
+
+MUTANTS_FRAME = [
+    dict(name="frame reader prefers the live copy of the last frame", units=["save_time_step -> TDGLData.from_hdf5"],
+         edits=[(DATA_, "            if key in h5file[\"data\"][step]:\n                dset = h5file[\"data\"][step][key]", "            if key in h5file[\"data\"][step]:\n                dset = h5file[\"data\"][sorted(h5file[\"data\"].keys(), key=int)[-1]][key]")]),
+    dict(name="frame reader returns the potential for the supercurrent", units=["save_time_step -> TDGLData.from_hdf5"],
+         edits=[(DATA_, "            **{field.name: get(field.name) for field in dataclasses.fields(TDGLData)}", "            **{field.name: get(\"mu\" if field.name == \"supercurrent\" else field.name) for field in dataclasses.fields(TDGLData)}")]),
+    dict(name="fixed values written to the live copy only", units=["save_time_step -> TDGLData.from_hdf5"],
+         edits=[(R_, "            self.output_file[key] = value\n            self.tmp_file[key] = value", "            self.tmp_file[key] = value")]),
+    dict(name="state of the first frame for every frame", units=["save_time_step -> TDGLData.from_hdf5"],
+         edits=[(DATA_, "    return dict(h5file[\"data\"][str(step)].attrs)", "    return dict(h5file[\"data\"][\"0\"].attrs)")]),
+]
